@@ -203,6 +203,13 @@ PLAN = {
     ),
 }
 
+# Per-package fragments: harness/cNN/plan_entry.py defines ENTRY = {"CNN": dict(...)} using R and REPLAY.
+import glob as _glob, os as _os
+for _f in sorted(_glob.glob(_os.path.join(_os.path.dirname(_os.path.abspath(__file__)), "c[0-9][0-9]", "plan_entry.py"))):
+    _ns = {"R": R, "REPLAY": REPLAY}
+    exec(compile(open(_f).read(), _f, "exec"), _ns)
+    PLAN.update(_ns["ENTRY"])
+
 HOOK_COMMITS = []
 
 _TODO = "check not built yet in this round (harness under construction); planned, see DESIGN.md section 4"
